@@ -290,10 +290,39 @@ class CrashBench:
         return kind
 
     # ---- one truncation state -------------------------------------------------------------------
-    def truncation(self, k, drv, check_hit=False, edit_after=False):
+    def edited_text(self):
+        """The same model with one more variable and equation (a different model; the n-th edit differs from all before)."""
+        self.nedits = getattr(self, "nedits", 0) + 1
+        n = self.nedits
+        if "model M\n" not in self.text or "end M;" not in self.text:
+            return None
+        t = self.text.replace("model M\n", "model M\n  Real verif_e%d;\n" % n, 1)
+        i = t.rindex("end M;")
+        return t[:i] + "equation\n  verif_e%d = %d.25;\n" % (n, n) + t[i:]
+
+    def truncation(self, k, drv, check_hit=False, edit_after=False, edit_before=False):
         ctx, w = self.ctx, self.w
+        start0 = None
+        pre0 = None
+        if edit_before:
+            # the sources change to a DIFFERENT model after this process compiled (and cached) the old one; the cache
+            # file that is then found cut is newer than the edited source (another process died while rewriting it)
+            new = self.edited_text()
+            if new is None:
+                edit_before = False
+            else:
+                k = min(k, len(self.B) - 1)      # a COMPLETE old cache stamped newer than the edit is outside the property
+                pre0 = self.model_prefix(True)
+                start0 = len(w.model_ops)
+                self.src_tick = w.write(0, "M.mo", new)
+                self.text = new
+                rok, rm, rmsg = w.reference(self.opts, [])
+                if not rok:
+                    raise HarnessError("edited bench model does not compile: %s" % rmsg)
+                self.ref = G.signature(rm, 2, 3)
+                ctx.count("truncate:source-edited-before-the-cut")
         case = {"stream": "truncate", "text": self.text, "opts": self.opts, "offset": k, "size": len(self.B),
-                "edit_after": edit_after}
+                "edit_after": edit_after, "edit_before": edit_before}
         data = self.B[:k]
         with open(w.cache_path(), "wb") as f:
             f.write(data)
@@ -303,6 +332,8 @@ class CrashBench:
         # model: the file now holds `k` of `size` bytes; make sure the model's file is the complete one first
         w.model_ops.append(["truncate", k, t])
         pre = self.model_prefix(True)
+        if edit_before:
+            pre, start = pre0, start0
         if edit_after:
             self.src_tick = w.write(0, "M.mo", self.text)     # same text, later time: the mtime check fires before the unpickler
         e = self.unpickle_exc(data)
@@ -315,6 +346,11 @@ class CrashBench:
             return False
         ctx.count("decision:" + kind)
         kinds = [kind]
+        if edit_before:
+            # from here on the complete cache of this bench is the one of the edited sources
+            sizeB = len(self.B)
+            with open(w.cache_path(), "rb") as f:
+                self.B = f.read()
         if check_hit:
             k2 = self.expect_hit(case, "a cut at %d" % k)
             if k2 is None:
@@ -1175,7 +1211,7 @@ def run(ctx):
                 if ctx.time_left() < 0:
                     ctx.notes.append("mandatory offsets stopped by the time budget")
                     break
-                if not b.truncation(k, drv, check_hit=(n % 16 == 0), edit_after=(n % 23 == 7)):
+                if not b.truncation(k, drv, check_hit=(n % 16 == 0), edit_after=(n % 23 == 7), edit_before=(n % 23 == 2)):
                     return
         rounds = max(len(p[1]) for p in plans) if plans else 0
         done = 0
@@ -1233,7 +1269,8 @@ def replay(ctx, payload):
         if not b.ok:
             raise HarnessError("replay model does not compile")
         if c["stream"] == "truncate":
-            b.truncation(c["offset"], drv, check_hit=True, edit_after=c.get("edit_after", False))
+            b.truncation(c["offset"], drv, check_hit=True, edit_after=c.get("edit_after", False),
+                         edit_before=c.get("edit_before", False))
         elif c["stream"] == "interrupt":
             b.interruption(c["at"], drv, at_bytes=c.get("at_bytes"), start_old=c.get("start_old", False))
         elif c["stream"] == "interleave":
